@@ -251,6 +251,9 @@ func init() {
 		ruleCallArity(c, r, fs)
 		ruleNoPanicCalls(c, r, fs)
 		ruleTableIndex(c, r, fs)
+		ruleNilEntry(c, r)
+		ruleFloatLexical(c, r)
+		rulePrecisionBound(c, r)
 	})
 }
 
